@@ -1,5 +1,6 @@
 """C17 - client identity and registration markers stay coherent over any history."""
 import ast
+from ..cfg import handler_names
 
 from ..model import (AnalysisError, FUNC_TYPES, U, call_attr, call_name, dotted, enclosing, enclosing_function, guard_texts, guards_ex,
                      short, walk_body, walk_local, ancestors, parent, const_str, kwarg)
@@ -207,6 +208,39 @@ def r5_identifier(cx):
     cx.require(ok, fresh[0] if fresh else fn, "a fresh identifier is generated only when none was found", construct=short(fresh[0]) if fresh else "(none)")
 
 
+def r5b_persist_or_fail(cx):
+    """'stays the same until a new one is explicitly requested': a freshly generated identifier is returned only if it was stored.  A write failure that is
+    swallowed (logged) hands out an identifier that the next run cannot find - the next run generates another one."""
+    cx.rule("C17.R5", "the identifier is reused when present, written only when absent, and always returned in canonical form", floor=5)
+    m = cx.repo.module(UT)
+    fn = m.func("generate_machine_id", "C17.R5")
+    n = 0
+    for f in feat.region(m, fn):
+        for x in find_calls(f.body, name="write_to_disk"):
+            if kwarg(x, "delete") is not None and U(kwarg(x, "delete")) == "True":
+                continue
+            n += 1
+            swallowed = None
+            node = x
+            while True:
+                t = enclosing(node, ast.Try)
+                if t is None:
+                    break
+                in_body = any(node is y or any(node is z for z in ast.walk(y)) for y in t.body)
+                if in_body:
+                    for h in t.handlers:
+                        names = handler_names(h) if h.type is not None else ["BaseException"]
+                        if set(names) & set(["OSError", "IOError", "EnvironmentError", "Exception", "BaseException", "PermissionError", "FileNotFoundError"]):
+                            reraises = any(isinstance(r, ast.Raise) for r in walk_body(h.body)) or any(call_name(c) in ("sys.exit", "exit", "os._exit") for c in find_calls(h.body))
+                            if not reraises:
+                                swallowed = swallowed or h
+                node = t
+            cx.require(swallowed is None, swallowed if swallowed is not None else x, "a failure to store the new identifier propagates (the identifier is never handed out unsaved)",
+                       construct=short(swallowed, 80) if swallowed is not None else short(x, 80))
+    if n == 0:
+        cx.bad(fn, "generate_machine_id persists a fresh identifier", construct="(no write_to_disk)")
+
+
 def run(cx):
     repo = cx.repo
     cx.extra["explanation"] = ("C17: dominance of the opposite deleter over every marker write, deleter/writer list agreement, lexists/islink/os.remove discipline around each write, "
@@ -221,3 +255,4 @@ def run(cx):
     cx.guard(r3_symlink)
     cx.guard(r4_who_may_write, mods)
     cx.guard(r5_identifier)
+    cx.guard(r5b_persist_or_fail)
